@@ -90,7 +90,7 @@ func wsIndexState(v ssa.Value) string {
 func indexGetTests(fn *ssa.Function, pkg string, states ...string) ([]boolTest, int) {
 	var tests []boolTest
 	n := 0
-	for _, c := range callsIn(fn, "(*"+pkg+".WorkSpaceMap).Get") {
+	for _, c := range callsInShallow(fn, "(*"+pkg+".WorkSpaceMap).Get") {
 		st := wsIndexState(callRecv(c))
 		hit := false
 		for _, s := range states {
